@@ -117,7 +117,9 @@ def run(ctx):
                 scripted = ([["makedir", "/shift"], ["create", "/shift/" + first]] + [["create", f"/shift/F{q:02d}.TXT"] for q in range(1, nf)] +
                             [["makedir", "/shift/" + dn], ["open", "sh", f"/shift/{dn}/keep.bin", "w"], ["write", "sh", "53" * 700], ["hclose", "sh"]])
                 pre += scripted
-                work = [["remove", "/shift/" + first]] + work
+                # ... before that a NEW file is created in it: the entries already there - the sub-directory's among them - must stay where
+                # they are (C12-m6: files written before sub-directories, so every new file pushed the sub-directory's slots along)
+                work = [["create", "/shift/NEW.TXT"], ["remove", "/shift/" + first]] + work
             work = [o if (len(o) > 1 and isinstance(o[1], str) and o[1].startswith("/shift")) else
                     [o[0]] + [("/work" + x if isinstance(x, str) and x.startswith("/") else x) for x in o[1:]] for o in work
                     if o[0] in ("makedir", "create", "open", "write", "hclose", "remove", "removedir", "removetree", "truncate", "seek", "setinfo")]
